@@ -319,6 +319,50 @@ pub fn step_push(c: &OCfg) {
     core::mem::forget(f);
 }
 
+/// Step(drop) with droppable outputs: every running future and every parked
+/// output is dropped exactly once with the collection
+pub fn step_drop(c: &OCfg) {
+    use crate::child::{TFut, Tok};
+    gh::reset();
+    let o = gen_opre(c);
+    let gh = g();
+    let p = o.p;
+    let w = gh::task_waker(p.reg_t);
+    let q = p.q;
+    let mut f: FuturesOrderedBounded<TFut> = v::fob_from_parts(
+        c.cap,
+        |i| if p.occ[i] { Ok((TFut::new(i as u8), o.out.wrapping_add(o.off[i]))) } else { Err(p.nf[i]) },
+        p.free_head,
+        p.qlen,
+        &q,
+        &w,
+        p.reg,
+        c.cap + c.max_parked,
+        o.out.wrapping_add(o.len),
+        o.out,
+    );
+    let mut k = 0;
+    while k < c.max_parked {
+        f.verif_park(o.out.wrapping_add(o.poff[k]), Tok::new((c.cap + k) as u8));
+        k += 1;
+    }
+    drop(f);
+    let mut i = 0;
+    while i < c.cap {
+        if p.occ[i] {
+            vassert!(gh.drops[i] == 1, "C06:running future not dropped exactly once with the ordered collection");
+        }
+        i += 1;
+    }
+    let mut k = 0;
+    while k < c.max_parked {
+        vassert!(gh.tok_drops[c.cap + k] == 1, "C06:output parked out of turn not dropped exactly once with the ordered collection");
+        k += 1;
+    }
+    vcover!(p.filled > 0, "cover:drop_with_running");
+    core::mem::forget(w);
+}
+
 /// constructors succeed for every capacity, 0 included
 pub fn construct(maxcap: u8) {
     gh::reset();
